@@ -22,7 +22,7 @@ def cases(seed, tier):
     out = []
     for k in range(n):
         r = random.Random(sch.np_seed(f"c04.{k}"))
-        c = wp.std_case(r, sch.np_seed(f"s{k}"), kinds=("gauss", "bimodal", "expedge", "hole", "corr"), scenarios=("plain", "crash_resume", "crash_resume", "rerun", "rerun"), blobs=(0,), evals=("scalar", "vector"))
+        c = wp.std_case(r, sch.np_seed(f"s{k}"), kinds=("gauss", "bimodal", "expedge", "hole", "corr"), scenarios=("plain", "crash_resume", "crash_resume", "rerun", "rerun", "like_raise"), blobs=(0,), evals=("scalar", "vector"))
         if c["scenario"] == "crash_resume":
             c["reconfig"] = dict(n_particles=c["cfg"]["n_particles"] * r.choice([2, 3]))
         if r.random() < 0.25:
